@@ -155,6 +155,9 @@ def _single_command(X, ev, prog, fmt, cmd):
 
 def _body_key(word, want: bytes, got: bytes):
     notes = set(word.notes)
+    if not word.inexact and any(b >= 0x80 for b in want) and got == want.decode("latin-1").encode("utf-8"):
+        # exactly the latin-1 -> UTF-8 re-encoding of the body, whatever escapes the command uses besides
+        return "non-utf8-charset-reencoded"
     if not word.inexact and "trailing-newline-stripped" in notes and want.rstrip(b"\n") == got:
         return "trailing-newline-stripped"
     if word.inexact or "percent-directive" in notes or "percent-percent" in notes:
